@@ -57,6 +57,7 @@ def boom(detector, a=0, b=0, tag=""):
     detector.pixel.array = np.full(detector.geometry.shape, float(a) * 10 + float(b) + step)
     detector.photon.array = np.full(detector.geometry.shape, float(a))
     p = PLAN
+    _slow_if_requested()
     if not p or p["name"] != name:
         return
     if "call" in p:
@@ -69,15 +70,27 @@ def boom(detector, a=0, b=0, tag=""):
     raise probes.make_exc(p["exc"], p["msg"])
 
 
+def _slow_if_requested():
+    if PLAN.get("_hit") and PLAN.get("slow_after"):
+        import time
+
+        time.sleep(0.02)
+
+
 PIPES = {
     "p2": [("photon_collection", "m_ph"), ("charge_collection", "m_cc")],
     "p4": [("photon_collection", "m_ph"), ("charge_generation", "m_cg1"), ("charge_generation", "m_cg2"),
            ("readout_electronics", "m_re")],
 }
+# disabled models listed *before* enabled ones of the same group (they must neither run nor be blamed)
+DISABLED = {"p2": [("charge_collection", "m_off_cc")],
+            "p4": [("charge_generation", "m_off_cg"), ("readout_electronics", "m_off_re")]}
 
 
 def build_pipe(pname):
     groups = {}
+    for g, n in DISABLED[pname]:
+        groups.setdefault(g, []).append(("props.c09_fault_propagation.boom", n, {"a": 0, "b": 0}, False))
     for g, n in PIPES[pname]:
         groups.setdefault(g, []).append(("props.c09_fault_propagation.boom", n, {"a": 0, "b": 0}))
     return mk.pipeline(groups)
@@ -138,6 +151,13 @@ def enumerate_cases(tier, seed):
     for k in ks:
         for exc in (EXC if (thorough and k in (0, 8)) else (["ValueError", "ProbeError"] if k in (0, 8) else ["ValueError"])):
             cases.append({"mode": "calibration", "pipe": "p2", "site": {"name": "m_cc", "call": k}, "exc": exc})
+    # several islands: a fault in one island while the others are still evolving (their later evaluations are slowed
+    # down so that the failing island finishes first); 2 islands x population 8: calls 0-15 initial populations
+    ks2 = list(range(0, 48, 2)) if thorough else [3, 12, 17, 19, 26, 33]
+    for islands in ((2, 3) if thorough else (2,)):
+        for k in ks2:
+            cases.append({"mode": "calibration", "pipe": "p2", "islands": islands, "slow_after": True,
+                          "site": {"name": "m_cc", "call": k}, "exc": "ValueError"})
     return cases
 
 
@@ -225,7 +245,7 @@ def run_case(case):
     probes.reset()
     LOG.clear()
     PLAN.clear()
-    PLAN.update(dict(site, exc=case["exc"], msg=msg))
+    PLAN.update(dict(site, exc=case["exc"], msg=msg, slow_after=bool(case.get("slow_after"))))
     raised = None
     result = None
     phase = "start"
@@ -254,7 +274,7 @@ def run_case(case):
                         phase = "load"
                         result.load()
             elif mode == "calibration":
-                result = _run_calibration(det, pipe, tmp)
+                result = _run_calibration(det, pipe, tmp, case.get("islands", 1))
                 phase = "compute"
                 # everything lazily attached to the result must be computable (or fail loudly)
                 for node in result.subtree:
@@ -286,6 +306,10 @@ def run_case(case):
             bad("group-missing", f"group name {g!r} not attached to {type(raised).__name__}: {text[:400]!r}")
         if site["name"] not in text:
             bad("model-missing", f"model name {site['name']!r} not attached: {text[:400]!r}")
+        blamed = [n for _, n in PIPES[case["pipe"]] + DISABLED[case["pipe"]]
+                  if n != site["name"] and f"model '{n}'" in text]
+        if blamed:
+            bad("wrong-model-blamed", f"the error names model(s) {blamed} although {site['name']!r} failed: {text[:400]!r}")
         if mode == "obs_seq":
             # the parameter values of the failing run: every swept key and its value
             for arg in ("a", "b"):
@@ -319,7 +343,7 @@ def _has_value(text, key, value):
     return False
 
 
-def _run_calibration(det, pipe, tmp):
+def _run_calibration(det, pipe, tmp, islands=1):
     import pyxel
     from pyxel.observation import ParameterValues
 
@@ -328,7 +352,7 @@ def _run_calibration(det, pipe, tmp):
     tgt = os.path.join(tmp, "t.npy")
     np.save(tgt, np.ones((2, 3)))
     cal = calib.calibration([tgt], [ParameterValues(key=key_of("p2", "m_ph", "a"), values="_", boundaries=(0.0, 5.0))],
-                            generations=2, population_size=8, pygmo_seed=1, num_islands=1, num_evolutions=1)
+                            generations=2, population_size=8, pygmo_seed=1, num_islands=islands, num_evolutions=1)
     return pyxel.run_mode(cal, det, pipe, with_inherited_coords=True)
 
 
